@@ -89,6 +89,8 @@ pub struct Check {
     pub findings: Vec<Finding>,
     pub finding_counts: BTreeMap<String, u64>,
     pub machinery: Vec<String>,
+    /// violations whose schedule reproduced twice on fresh threads before being reported
+    pub replays_confirmed: u64,
 }
 
 impl Check {
@@ -117,6 +119,7 @@ impl Check {
             findings: Vec::new(),
             finding_counts: BTreeMap::new(),
             machinery: Vec::new(),
+            replays_confirmed: 0,
         }
     }
 
@@ -188,6 +191,25 @@ impl Check {
         }));
         self.distinct_nontrivial += st.nontrivial_outcomes.len() as u64;
         for v in &st.violations {
+            // a violation is only believed if its schedule reproduces it, twice, on fresh OS threads
+            // (no state shared with any other execution); otherwise it is a machinery problem, never a verdict
+            let mut reproduced = 0;
+            for _ in 0..2 {
+                let rec = crate::simnet::run_one::<S>(cfg, &v.choices, ecfg.max_polls);
+                if let Some(crate::simnet::Verdict::Violation(vv)) = &rec.verdict {
+                    if vv.clause == v.violation.clause && vv.witness == v.violation.witness {
+                        reproduced += 1;
+                    }
+                }
+            }
+            if reproduced != 2 {
+                self.machinery.push(format!(
+                    "violation [{}] {} of config #{cfg_index} reproduced {reproduced}/2 times on fresh threads (choices {:?})",
+                    v.violation.clause, v.violation.witness, v.choices
+                ));
+                continue;
+            }
+            self.replays_confirmed += 1;
             let n = st.violation_classes.get(&format!("{}|{}", v.violation.clause, v.violation.witness)).copied().unwrap_or(1);
             self.add_finding_n(Finding {
                 clause: v.violation.clause.clone(),
@@ -262,6 +284,7 @@ impl Check {
             "finding_classes": self.finding_counts,
             "known_findings_hit": known_hits,
             "unknown_violation_classes": unknown,
+            "violations_reproduced_twice_on_fresh_threads": self.replays_confirmed,
         });
         for (k, v) in &self.extra {
             coverage[k] = v.clone();
